@@ -24,7 +24,11 @@ META = {
     "the linear path with NO named hypothesis left (xr_entry_linear_total: C04 tilings, C12 linear dependencies and their "
     "validity composed in; the default chunks= never fails: xrDask_default_ok; N-d arrays with the spatial axes anywhere: xr_entry_nd_linear; with the SNAPPED dependency transform that _check_linear "
     "really uses, under the drift bound |a-a'|*dstW+|c-c'| <= |a'|/4 per axis: xr_entry_linear_snapped — K17 / K23 are exactly "
-    "the points outside the bound); every pixel that no source pixel reaches holds "
+    "the points outside the bound; on ROTATED / SHEARED / MIRRORED grids of one CRS (general path of grid_intersect) with the "
+    "dependency table of the C12Gi model and no dependency / footprint hypothesis: xr_entry_same_crs_general, composing builder "
+    "C12's chunked_eq_whole_same_crs_general; xr_reproject(Dataset): every georegistered variable is its own DataArray result "
+    "under its name and position, plain variables pass through, dask == numpy variable by variable: ds_var_eq_da, "
+    "ds_names_kept, ds_plain_passthrough, ds_chunked_eq_whole); every pixel that no source pixel reaches holds "
     "resolve_fill(dst_nodata, src_nodata, dtype) in task chunks and constant chunks alike for ANY dependency "
     "map (fill_uniform, disjoint_all_fill), and for integer rasters with ANY caller nodata (fractional, negative, out of range) "
     "the constant chunks hold exactly what the warp writes (const_fill_eq_warp_fill; as found they did not: "
@@ -52,19 +56,30 @@ META = {
     "(any ydim, any chunk tables) are proved plane by plane (Props/C13Nd).  Harness discipline: odc-geo internals "
     "(_dask_rio_reproject, _rio_reproject, _check_linear, resolve_fill_value, BlockAssembler) are looked up defensively and probed; "
     "when one is gone or has another calling convention the stream goes through xr_reproject / warp_affine or is skipped with "
-    "a note — graph key names, task binding and layer structure are not looked at.  NOT MODELLED (inventory of the "
-    "anchor files): GDAL's approximate transformer and every non-nearest resampling kernel (oracle: fill claim "
-    "only); IEEE rounding (non-dyadic placements are oracle-only: lindeps would need a float-rounding model of "
-    "affine multiplication/inversion); which exception class rejects a negative tile size / non-adding chunks (ValueError or "
-    "IndexError, one error kind in the model); nodata conversion for float / complex dtypes is modelled as round-to-nearest-even "
-    "to the type's precision in the normal range (roundFloat, pinned on float16/32/64 and complex64/128 through the public "
-    "entry; subnormals and overflow to inf are not), the int8 wrap-around is modelled (wrapInt, pinned); keywords of "
+    "a note — graph key names, task binding and layer structure are not looked at.  ORACLE-ONLY because of GDAL's APPROXIMATE TRANSFORMER (rows of >= 5 destination pixels are "
+    "mapped by linear interpolation between exactly transformed points, error threshold 0.125 px): (1) for grids of DIFFERENT "
+    "CRSs the value claim 'chunked == whole pixel for pixel' — the Lean theorem (chunked_eq_whole_cross) is about the EXACT "
+    "transformer pixMapP, real GDAL may sample a neighbouring source pixel where the mapped centre lies within 0.125 px of a "
+    "source pixel edge, and may do so differently per chunk because the interpolation nodes depend on the chunk's row length; "
+    "the harness therefore compares values only where the exactly mapped centre is > 0.3 px from every source pixel edge "
+    "(cross-crs-sampled-pixel-differs) and the fill only > 0.3 px outside the source (unreached-pixel-not-fill-cross-*); "
+    "(2) for grids of ONE CRS the pixel map is affine, interpolation of an affine map is exact up to rounding, and the "
+    "theorems apply — except for a destination pixel centre mapping EXACTLY onto the source's left/top edge, where exact "
+    "and approximate transformer disagree by rounding: known finding K10, excluded from the exact stream by edge_zero; "
+    "(3) every non-nearest resampling kernel: only the fill claim and keyword forwarding are checked, plus exactness on linear "
+    "fields.  Everything else stated above is proved and tied.  NOT MODELLED (inventory of the anchor files): the resampling "
+    "kernels themselves; IEEE rounding (non-dyadic placements are oracle-only: lindeps would need a float-rounding model of "
+    "affine multiplication/inversion); which exception class rejects a NEGATIVE tile size (ValueError or IndexError, one error "
+    "kind in the model; chunk tuples that do not add up are a ValueError from GeoboxTiles on HEAD: dstTilingsH, exact class "
+    "compared); nodata conversion for float / complex dtypes is modelled as round-to-nearest-even "
+    "to the type's precision (roundFloat in the normal range, roundIEEE with subnormal spacing and overflow to +-inf, both "
+    "pinned on float16/32/64, complex64/128 through the public entry / resolve_fill_value), the int8 wrap-around is modelled (wrapInt, pinned); keywords of "
     "xr_reproject that are not warp options (dtype=, axis=) reach only the dask task: known finding "
     "entry-passthrough-kwarg-differs; a destination chunk of zero area wired to sources is "
     "modelled as the GDAL error it is (emptyTask), zero-length SOURCE chunks are in the model; "
     "_xr_interop._xr_reproject_da's output assembly (attrs, coords, dims, encoding, maybe_int(dst_nodata): only dask == numpy "
     "equality of attrs/dims/dtype is checked here, the content is C09's), output_geobox / _extract_output_geobox_params, "
-    "xr_reproject(Dataset) mapping over variables, GCPGeoBox sources; warp.py: is_resampling_nn for enum / int arguments; "
+    "the Dataset-level attrs / pass-through coordinate stripping of _xr_reproject_ds (C09's), GCPGeoBox sources; warp.py: is_resampling_nn for enum / int arguments; "
     "_blocks.py: BlockAssembler._verify_shape errors, _norm_roi / extract with partial rois and int indices, "
     "dtype promotion (_find_common_type), casting=; _dask.py: dtype= / casting= pass-through, "
     "graph naming (uuid4), HighLevelGraph wiring beyond the task-level executor model; geobox.py: "
@@ -2528,6 +2543,144 @@ def passthrough_kwargs(R: Run, ns, rng):
                  if not ok else "", sig="passthrough|" + next(iter(kw)))
 
 
+# ------------------------------------------------------------------ final increment: rotated deps, HEAD error class, IEEE range, Dataset
+IEEE = {"float16": (11, -14, 15), "float32": (24, -126, 127), "float64": (53, -1022, 1023)}
+
+
+def final_glue(R: Run, ns, rng):
+    """(a) the dependency table of the same-CRS GENERAL path (rotated / sheared grids) against the C12Gi model that
+    xr_entry_same_crs_general is stated over; (b) the exact exception class for chunk tuples that do not add up (HEAD: ValueError
+    from GeoboxTiles); (c) float conversion incl. subnormals and overflow to inf; (d) xr_reproject(Dataset) = the DataArray call
+    variable by variable, plain variables passed through"""
+    import warnings
+
+    import xarray as xr
+
+    # (a)
+    n = 0
+    for _ in range(R.pick(60, 600)):
+        if n >= R.pick(24, 300):
+            break
+        case = gen_case(rng, rotated=True, small=True)
+        sg, dg, S = geoboxes(ns, case)
+        arg = rng.choice([(case["cy"], case["cx"]), (compositions(rng, case["dh"]), compositions(rng, case["dw"])), None])
+        how = arg if arg is not None else (max(case["sy"]), max(case["sx"]))
+        gs, gd = ns.GeoboxTiles(sg, (case["sy"], case["sx"])), ns.GeoboxTiles(dg, how)
+        chk = getattr(gd, "_check_linear", None)
+        try:
+            general = chk is not None and chk(gs) is None
+        except TypeError:
+            general = False
+        if not general:
+            if chk is None:
+                note_once("GeoboxTiles._check_linear not found: the general-path dependency stream (gideps) is skipped")
+                break
+            continue
+        n += 1
+        R.corr("c13 gideps " + " ".join([";".join(frac_s(v) for v in S), ";".join(frac_s(v) for v in case["D"]), str(case["sh"]),
+                                         str(case["sw"]), str(case["dh"]), str(case["dw"]), list_s(case["sy"]), list_s(case["sx"]),
+                                         chunk_arg_s(arg)]),
+               lambda gd=gd, gs=gs: deps_s(gd.grid_intersect(gs)), sig=f"gideps|{case.get('fam')}|" + ("none" if arg is None else
+                                                                                                       "var" if isinstance(arg[0], tuple) else "pair"))
+    # (b)
+    for i in range(R.pick(24, 300)):
+        sh, sw, dh, dw = (rng.randint(1, 6) for _ in range(4))
+        sy, sx = compositions(rng, sh), compositions(rng, sw)
+        arg = gen_chunk_arg(rng, dh, dw, sy, sx, bad=0.0)
+        if arg is None or not isinstance(arg[0], tuple) or rng.random() < 0.7:
+            ys, xs = list(compositions(rng, dh)), list(compositions(rng, dw))
+            k = rng.random()
+            if k < 0.4:
+                ys = ys + [rng.randint(1, 2)]
+            elif k < 0.7:
+                xs = xs[:-1] if len(xs) > 1 else xs + [1]
+            elif k < 0.85:
+                ys = []
+            arg = (tuple(ys), tuple(xs))
+        sg = ns.GeoBox((sh, sw), ns.Affine(1, 0, 0, 0, -1, sh), CRS)
+        dg = ns.GeoBox((dh, dw), ns.Affine(1, 0, 1, 0, -1, sh), CRS) if i % 2 else ns.GeoBox((dh, dw), ns.Affine(0, 1, 1, 1, 0, 0), CRS)
+
+        def f_ch(sg=sg, dg=dg, sy=sy, sx=sx, arg=arg, sh=sh, sw=sw):
+            xd = ns.wrap_xr(ns.da.zeros((sh, sw), chunks=(sy, sx), dtype="int16"), sg)
+            cy, cx = ns.xr_reproject(xd, dg, chunks=arg).data.chunks
+            return spans_s(cy) + " " + spans_s(cx)
+
+        R.corr(f"c13 chunksh {dh} {dw} {list_s(sy)} {list_s(sx)} {chunk_arg_s(arg)}", f_ch,
+               sig="chunksh|" + ("rejected" if rejected_arg(arg, dh, dw) else "ok") + ("|linear" if i % 2 else "|general"))
+    # (c)
+    for dtype, (p, emin, emax) in IEEE.items():
+        big, tiny = float(np.finfo(dtype).max), float(np.finfo(dtype).tiny)
+        vals = [0.1, tiny, tiny / 2, tiny / 3, tiny * 1.5, float(np.finfo(dtype).smallest_subnormal) * 0.4, big, -big,
+                float("nan"), 0.0, -tiny / 7]
+        if dtype != "float64":
+            vals += [big * 1.0001, big * (1 + 2.0 ** -(p + 1)), -big * 2, big * (1 + 2.0 ** -(p + 3))]
+        for v in (vals if not R.quick else rng.sample(vals, 7)):
+            def f_ieee(v=v, dtype=dtype):
+                if ns.resolve_fill is None:
+                    raise Skip("odc.geo._dask.resolve_fill_value not found: its float conversion is seen through the constant chunks only")
+                with warnings.catch_warnings():
+                    warnings.simplefilter("ignore")
+                    out = float(ns.resolve_fill(v, None, dtype))
+                return "n" if math.isnan(out) else ("inf" if out == math.inf else "-inf" if out == -math.inf else frac_s(F(out)))
+
+            corr_skip(R, f"c13 ieee {p} {emin} {emax} {raw_s(v)}", f_ieee,
+                      sig=f"ieee|{dtype}|" + ("nan" if v != v else "sub" if abs(v) < tiny else "over" if abs(v) > big else "normal"))
+    # (d)
+    for i in range(R.pick(6, 60)):
+        case = gen_case(rng, rotated=(i % 3 == 2), small=True)
+        sg, dg, _ = geoboxes(ns, case)
+        specs = [("red", "int16", rng.choice([None, 3])), ("qa", rng.choice(["uint8", "float32", "bool"]), rng.choice([None, 0, 1]))]
+        kw_sn, dn = rng.choice([(None, None), (None, 5), (2, None)])
+        kw = {} if kw_sn is None else {"src_nodata": kw_sn}
+        meta = np.arange(3)
+        arrs = {nm: gen_data(rng, (case["sh"], case["sw"]), dt, (nd, dn)) for nm, dt, nd in specs}
+        order = [s_[0] for s_ in specs]
+        order.insert(rng.randrange(3), "meta")
+        cj = {"kind": "dataset", "case": case_json(case), "specs": [list(map(str, s_)) for s_ in specs], "order": order,
+              "kw_sn": kw_sn, "dn": dn}
+
+        def build(dask_backed):
+            dv = {}
+            for nm in order:
+                if nm == "meta":
+                    dv[nm] = xr.DataArray(meta, dims=("t",))
+                else:
+                    dt, nd = next((d_, n_) for n2, d_, n_ in specs if n2 == nm)
+                    a = arrs[nm]
+                    dv[nm] = ns.wrap_xr(ns.da.from_array(a, chunks=(case["sy"], case["sx"])) if dask_backed else a, sg, nodata=nd)
+            return xr.Dataset(dv)
+
+        try:
+            outs = {}
+            for backed in (False, True):
+                ds = build(backed)
+                ex = {"chunks": (case["cy"], case["cx"])} if backed else {}
+                res = ns.xr_reproject(ds, dg, dst_nodata=dn, **kw, **ex)
+                single = {nm: ns.xr_reproject(ds[nm], dg, dst_nodata=dn, **kw, **ex) for nm in order if nm != "meta"}
+                outs[backed] = (list(res.data_vars), {nm: np.asarray(res[nm].values) for nm in order},
+                                {nm: np.asarray(v.values) for nm, v in single.items()})
+        except Exception as e:  # pylint: disable=broad-except
+            R.oracle(False, "reproject-raises", cj, f"xr_reproject(Dataset) raised {type(e).__name__}: {e}", sig="dataset")
+            continue
+        plan = ",".join(f"{nm}:{'reproject' if outs[True][1][nm].shape == (case['dh'], case['dw']) and nm != 'meta' else 'pass'}"
+                        for nm in outs[True][0])
+        R.corr("c13 dsplan " + ",".join(f"{nm}:{'F' if nm == 'meta' else 'T'}" for nm in order), lambda plan=plan: plan, sig="dsplan")
+        ok, what = True, ""
+        for backed in (False, True):
+            names, dsv, da_ = outs[backed]
+            for nm in order:
+                if nm == "meta":
+                    good = np.array_equal(dsv[nm], meta)
+                else:
+                    good = same(dsv[nm], da_[nm]) and same(dsv[nm], outs[False][2][nm])
+                if not good:
+                    ok, what = False, (f"{'dask' if backed else 'numpy'}-backed Dataset: variable {nm} differs from "
+                                       f"{'the untouched variable' if nm == 'meta' else 'the (numpy-backed) DataArray call'}")
+            if names != order:
+                ok, what = False, f"data variables {names}, expected {order}"
+        R.oracle(ok, "dataset-variable-differs-from-dataarray", cj, what, sig="dataset|" + ("kw" if kw else "nokw"))
+
+
 def fractional_nodata(R: Run, ns, rng, n):
     """integer rasters with a nodata value the dtype cannot hold (2.5, -0.5, 3.75 ...): the constant blocks of
     `_dask_rio_reproject` (resolve_fill_value), the task chunks and the in-memory path must agree on the integer they
@@ -2630,6 +2783,7 @@ def run(R: Run):
         glue_kw(R, ns, rng)
         glue_unrep_pins(R, ns, rng)
         passthrough_kwargs(R, ns, rng)
+        final_glue(R, ns, rng)
         glue_xr_entry(R, ns, rng, R.pick(64, 1600), dts)  # quick: every dtype kind x chunks= form x nodata option a few times
         mark('glue')
         # quick: each (dtype, nodata mode) pair exactly once; thorough: 14 times each with other grids / scalar forms
